@@ -184,57 +184,71 @@ def countsOf (s1 s2 : List Int) : M4 := memo (ofCounts (fill (s1.zip s2)))
 /-- the estimator applied directly to one pair (what the property calls "the published formula on the pair") -/
 def direct (c : Calc) (s1 s2 : List Int) : Stat := stat c (countsOf s1 s2)
 
-/-! ### `_PairwiseDistance.run`, the duplicate shortcut and `_expand` -/
+/-! ### `_PairwiseDistance.run`, the duplicate shortcut and `_expand`
+(code as of repo commit 259ec35c1: `j` is an alias of `i` only if `numpy.array_equal(s1, s2)`) -/
 
-abbrev Dict := List ((Nat × Nat) × Stat)
+/-- a Python dict keyed by pairs of sequence indices: a partial function (`none` = key absent) -/
+abbrev Dict := Nat → Nat → Option Stat
 
-def dictGet (d : Dict) (k : Nat × Nat) : Option Stat := (d.find? (fun e => e.1 = k)).map (·.2)
+def dictGet (d : Dict) (k : Nat × Nat) : Option Stat := d k.1 k.2
 
 def dictSet (d : Dict) (k : Nat × Nat) (v : Stat) : Dict :=
-  if d.any (fun e => e.1 = k) then d.map (fun e => if e.1 = k then (k, v) else e) else d ++ [(k, v)]
+  fun x y => if x = k.1 ∧ y = k.2 then some v else d x y
 
 structure RunState where
   dupes : List Nat            -- `dupes` (set of indices)
   duped : List (Nat × Nat)    -- `duped[i].append(j)` in insertion order
   dists : Dict                -- `self._dists`
   raised : Bool               -- an ArithmeticError would have been raised (`invalid_raises`)
-  deriving Repr
 
 def isInvalid : Stat → Bool
   | .invalid => true
   | _ => false
 
+/-- the `Stats` tuple computed for a pair that is not aliased: no observed difference => distance 0.0
+(or all-`None` when the pair shares no canonical column); otherwise `self.func(matrix, ...)` -/
+def pairStat (c : Calc) (s1 s2 : List Int) : Stat :=
+  if !hasOffDiag (countsOf s1 s2) then (if 0 < total (countsOf s1 s2) then Stat.zero else Stat.invalid)
+  else stat c (countsOf s1 s2)
+
 /-- body of the inner `for j` loop -/
 def innerStep (c : Calc) (seqs : List (List Int)) (i : Nat) (st : RunState) (j : Nat) : RunState :=
   if st.dupes.contains j then st
+  else if !hasOffDiag (countsOf (seqs.getD i []) (seqs.getD j [])) && (seqs.getD i [] == seqs.getD j []) then
+    -- j is a duplicate of i
+    { st with dupes := st.dupes ++ [j], duped := st.duped ++ [(i, j)] }
   else
-    let m := countsOf (seqs.getD i []) (seqs.getD j [])
-    if !hasOffDiag m then
-      { st with dupes := st.dupes ++ [j], duped := st.duped ++ [(i, j)] }
-    else
-      let s := stat c m
-      { st with dists := dictSet (dictSet st.dists (i, j) s) (j, i) s, raised := st.raised || isInvalid s }
+    { st with
+      dists := dictSet (dictSet st.dists (i, j) (pairStat c (seqs.getD i []) (seqs.getD j [])))
+                 (j, i) (pairStat c (seqs.getD i []) (seqs.getD j [])),
+      raised := st.raised || isInvalid (pairStat c (seqs.getD i []) (seqs.getD j [])) }
 
 /-- body of the outer `for i` loop -/
 def outerStep (c : Calc) (seqs : List (List Int)) (st : RunState) (i : Nat) : RunState :=
   if st.dupes.contains i then st
   else (List.range' (i + 1) (seqs.length - (i + 1))).foldl (innerStep c seqs i) st
 
-/-- `run` up to and including the removal of every key that mentions a duplicate -/
-def run (c : Calc) (seqs : List (List Int)) : RunState :=
-  let st := (List.range (seqs.length - 1)).foldl (outerStep c seqs) ⟨[], [], [], false⟩
+/-- the two nested loops of `run` -/
+def runLoops (c : Calc) (seqs : List (List Int)) : RunState :=
+  (List.range' 0 (seqs.length - 1)).foldl (outerStep c seqs) ⟨[], [], fun _ _ => none, false⟩
+
+/-- "clean the distances so only unique seqs included": delete every key that mentions a duplicate -/
+def clean (st : RunState) : RunState :=
   if st.duped.isEmpty then st
-  else { st with dists := st.dists.filter fun e => !(st.dupes.contains e.1.1 || st.dupes.contains e.1.2) }
+  else { st with dists := fun x y => if st.dupes.contains x || st.dupes.contains y then none else st.dists x y }
+
+/-- `run` -/
+def run (c : Calc) (seqs : List (List Int)) : RunState := clean (runLoops c seqs)
 
 /-- `_expand`: one `(add, alias)` of `redundants`, one `name` -/
 def expandName (add alias : Nat) (pw : Dict) (name : Nat) : Dict :=
   if name = add then pw
   else
-    let v : Stat := if name = alias then .zero else (dictGet pw (alias, name)).getD .invalid
-    dictSet (dictSet pw (add, name) v) (name, add) v
+    dictSet (dictSet pw (add, name) (if name = alias then Stat.zero else (dictGet pw (alias, name)).getD .invalid))
+      (name, add) (if name = alias then Stat.zero else (dictGet pw (alias, name)).getD .invalid)
 
 def expandOne (n : Nat) (pw : Dict) (r : Nat × Nat) : Dict :=
-  (List.range n).foldl (expandName r.2 r.1) pw
+  (List.range' 0 n).foldl (expandName r.2 r.1) pw
 
 /-- `_expand` (`redundants[r] = k` for `k, r` in insertion order) -/
 def expand (n : Nat) (st : RunState) : Dict :=
@@ -246,42 +260,12 @@ def cell (d : Dict) (a b : Nat) : Stat :=
 
 /-- the whole of `calc.run(); calc.get_pairwise_distances()` -/
 def distanceMatrix (c : Calc) (seqs : List (List Int)) : List (List Stat) :=
-  let d := expand seqs.length (run c seqs)
-  (List.range seqs.length).map fun a => (List.range seqs.length).map fun b => cell d a b
+  (List.range seqs.length).map fun a => (List.range seqs.length).map fun b =>
+    cell (expand seqs.length (run c seqs)) a b
 
-/-! ### the same pipeline with the repaired duplicate test (fixes/C15-duplicate-shortcut-noncanonical.patch):
-a sequence is an alias of another only if the index arrays are equal; a pair without observed
-differences gets distance 0 directly (or "invalid" if the two share no canonical column).
-Used by the correspondence check when the tree under test carries the repair. -/
-
-def innerStepR (c : Calc) (seqs : List (List Int)) (i : Nat) (st : RunState) (j : Nat) : RunState :=
-  if st.dupes.contains j then st
-  else
-    let m := countsOf (seqs.getD i []) (seqs.getD j [])
-    if !hasOffDiag m && (seqs.getD i [] == seqs.getD j []) then
-      { st with dupes := st.dupes ++ [j], duped := st.duped ++ [(i, j)] }
-    else
-      let s := if !hasOffDiag m then (if 0 < total m then Stat.zero else Stat.invalid) else stat c m
-      { st with dists := dictSet (dictSet st.dists (i, j) s) (j, i) s, raised := st.raised || isInvalid s }
-
-def outerStepR (c : Calc) (seqs : List (List Int)) (st : RunState) (i : Nat) : RunState :=
-  if st.dupes.contains i then st
-  else (List.range' (i + 1) (seqs.length - (i + 1))).foldl (innerStepR c seqs i) st
-
-def runR (c : Calc) (seqs : List (List Int)) : RunState :=
-  let st := (List.range (seqs.length - 1)).foldl (outerStepR c seqs) ⟨[], [], [], false⟩
-  if st.duped.isEmpty then st
-  else { st with dists := st.dists.filter fun e => !(st.dupes.contains e.1.1 || st.dupes.contains e.1.2) }
-
-/-- the whole of `calc.run(); calc.get_pairwise_distances()` for the CURRENT code (repo commit 259ec35c1:
-the duplicate shortcut requires `numpy.array_equal(s1, s2)`) -/
-def distanceMatrixR (c : Calc) (seqs : List (List Int)) : List (List Stat) :=
-  let d := expand seqs.length (runR c seqs)
-  (List.range seqs.length).map fun a => (List.range seqs.length).map fun b => cell d a b
-
-/-- what the CURRENT code reports for one pair taken alone: the estimator when a difference was observed,
+/-- what the code reports for one pair taken alone: the estimator when a difference was observed,
 otherwise 0 — or "invalid" (`None`) when the two sequences share no canonical column and are not the same array -/
-def directR (c : Calc) (s1 s2 : List Int) : Stat :=
+def pairReport (c : Calc) (s1 s2 : List Int) : Stat :=
   if hasOffDiag (countsOf s1 s2) then stat c (countsOf s1 s2)
   else if s1 == s2 then .zero
   else if 0 < total (countsOf s1 s2) then .zero else .invalid
